@@ -5,7 +5,7 @@ from mc.common import Result
 from mc import queued
 
 PID = "C15"
-ALPHA = ([("post_fifo", x) for x in "ADET"] + [("post_lifo", x) for x in "DE"] + [("defer", x) for x in "AB"] +
+ALPHA = ([("post_fifo", x) for x in "ADET"] + [("post_lifo", x) for x in "DE"] + [("defer", x) for x in "AB"] + [("defer_same", "A")] +
          [("recall",), ("next_rtc",), ("complete_circuit",)])
 
 
